@@ -89,6 +89,11 @@ pub fn compare(ctx: &Ctx, out: &mut Out, text: &str, gtext: &str, origin: &str) 
     let co = text.contains("#[coinductive]") || text.contains("#[auto]");
     let mut answers = vec![];
     for (name, choice) in solver_choices() {
+        if name == "recursive" && text.contains("if not") {
+            // F18 (C09): the recursive solver does not return on negative cycles
+            out.count("skipped_negative_clauses");
+            return;
+        }
         if name == "recursive" && unknowns && co {
             // F12 (C09): the recursive solver can diverge and abort on coinductive goals with unknowns
             out.count("skipped_coinductive_unknowns");
